@@ -18,7 +18,7 @@ from ..engine import seq_iter, seq_shards
 ID = "C13"
 LEAN = True  # cases are distinct by construction; see engine.Acc
 RULE = (
-    "every token sequence over the 18-token name alphabet (upper/lower/caseless words incl. a brace group holding a control word, digit-led word, special characters "
+    "every token sequence over the 21-token name alphabet (upper/lower/caseless words incl. a brace group holding a control word, digit-led word, special characters "
     "{\\'E}x / {\\'e}x, escapes \\'Ee / \\'ee, control words \\Ob / \\ob at depth 0, space, double space, '~', ',', unbalancing '{' '}' and a bare backslash) up to the "
     "length bound, plus the exact token-edit balls around 4 realistic names; the real parse_single_name_into_parts is compared with a transcription of BibTeX's rules (validated on the "
     "repository's 149-name corpus) and, for pure word/separator sequences, with a constructive oracle that knows each word's "
@@ -43,6 +43,7 @@ WORDS = [
     ("{C\\dd}", R.X),  # an ordinary brace group is caseless whatever it contains (also a control word)
     ("\\Ob", R.U),  # case taken from a control word at brace depth 0
     ("\\ob", R.L),
+    ("{\\ E}x", R.U),  # a special character with an empty control sequence (backslash-blank): the E decides
 ]
 SEPS = [" ", "~", ",", "  "]
 ODD = ["\xa0", "\r"]  # NBSP is not a word separator for this code (documented set: space ~ CR LF tab); CR is
